@@ -52,7 +52,7 @@ retry:
 		case slip.List:
 			if 0 < len(pv) {
 				result = pv[0]
-				s.Set(ta, pv[1:])
+				s.Set(ta, pv.Cdr())
 			}
 		default:
 			slip.TypePanic(s, depth, "place referral", pv, "list")
@@ -73,7 +73,7 @@ retry:
 				for i, v := range targs {
 					pargs[i] = s.Eval(v, d2)
 				}
-				ta.Place(s, pargs, pv[1:])
+				ta.Place(s, pargs, pv.Cdr())
 			}
 		default:
 			slip.TypePanic(s, depth, "place referral", pv, "list")
